@@ -73,11 +73,14 @@ def programs(ctx, thorough):
             continue
         progs[prog_key(c)] = c
     out = sorted(progs.values(), key=prog_key)
+    # local-memory kernels on reduced platforms where several work-groups share one compute unit (Config.LocalMemWorkloads /
+    # SharedCUPlatforms): in timing mode co-resident work-groups must not see each other's LDS
+    shared = [c for c in sets['sharedcu_all' if thorough else 'sharedcu_quick'] if c['w'] not in SKIP]
     sampled = [c for c in c01.sampled_cases(ctx, 'all', 120 if thorough else 24)
                if c['c']['mode'] == 'timing' and c['w'] not in SKIP]
     for c in sampled:
         c['c'] = timing_class(c['c']['arch'])
-    return out, sampled
+    return out, sampled, shared
 
 
 def extras(tag):
@@ -156,11 +159,13 @@ def run_pairs(ctx, drv, progs, thorough, tag):
     emu_cases, t_cases = [], []
     for i, c in enumerate(progs):
         arch = c['c']['arch']
-        ec = dict(c, c=emu_class(arch))
+        ec = dict(c, c=emu_class(arch), knobs='')
         emu_cases.append(ec)
         gpu = timing_class(arch)['gpu']
         ks = KNOBS[gpu]
-        if thorough:
+        if c.get('shared_cu'):
+            chosen = [c['knobs']]
+        elif thorough:
             # stock + two knob sets in rotation for the size classes (every knob set meets every workload through its
             # size classes), one knob set for a sampled program
             rot = [ks[1 + (i + ctx.seed + j) % (len(ks) - 1)] for j in (0, 1)]
@@ -224,7 +229,7 @@ def run(ctx, selftest=False):
     if c02cumem is not None:
         c02cumem.run_component(ctx)
     drv = ctx.go_build('sysrun')
-    progs, sampled = programs(ctx, thorough)
+    progs, sampled, shared = programs(ctx, thorough)
     if not thorough:
         # quick: one size class per (workload, architecture) in rotation + the samples
         byw = {}
@@ -233,7 +238,7 @@ def run(ctx, selftest=False):
         progs = [v[(ctx.seed + i) % len(v)] for i, (k, v) in enumerate(sorted(byw.items()))]
         # all gcn3 programs, a rotating third of the cdna3 ones
         progs = [c for i, c in enumerate(progs) if c['c']['arch'] == 'gcn3' or (i + ctx.seed) % 3 == 0]
-    progs = progs + sampled
+    progs = progs + sampled + shared
     eres, tres = run_pairs(ctx, drv, progs, thorough, 'p')
 
     # the knob platforms are assembled in the harness (platform.go mirrors timingconfig.Builder.Build): with no effective knob
